@@ -7,8 +7,11 @@ from vlib import Check
 def main(tier, seed, replay):
     ck = Check("C16", tier, seed)
     ck.coq_theorems()
-    cases = conccheck.run(ck, "sesscache", tier, seed, replay)
-    if cases is not None:
+    env_replay = bool(replay) and '"Ops"' in open(replay).read()[:4000]
+    cases = conccheck.run(ck, "sesscache", tier, seed, replay) if not env_replay else []
+    if env_replay:
+        ck.cov.update({"evaluations": 1, "distinct_nontrivial": 1, "rule": "replay"})
+    elif cases is not None:
         s = ck.cov["schedules"]["sesscache"]
         ck.cov.update({"evaluations": s["evaluations"], "distinct_nontrivial": s["distinct_schedules"],
                        "rule": "seeded schedules of 2-4 goroutines x 2 rounds of GetSession/Encrypt/Decrypt/Close over 3 partitions with session cache capacity 1-2 (lru, slru, lfu; "
@@ -16,6 +19,35 @@ def main(tier, seed, replay):
                                "released twice, nothing live after the factory and all holders closed, no deadlock; non-trivial = distinct schedule with >= 8 releases",
                        "samples": [s["sample_trace"]]})
         ck.cov["trusted_base"] += ["interleavings at yield points inserted before lock acquisitions / condition waits; asynchronous Remove goroutines run uncontrolled"]
+    # expiry: the session cache's entries expire under the virtual clock in the envelope harness (capacity 1 with a 5 s lifetime, capacity 2
+    # with the default one); sequential histories, every secret's life recorded, compared with the model's secret bookkeeping
+    if cases is not None and (not replay or env_replay):
+        import json, envcheck, envterms
+        runs = [["-replay", replay]] if replay else [["-seed", str(seed + 41), "-n", "120" if tier == "quick" else "1200", "-x", "sesscache"]]
+        ecases = envcheck.run_harness(ck, "env", runs)
+        if ecases is None:
+            return ck.finish()
+        viols = list(envcheck.MONITORS["C16"](ecases))
+        diffs, errs, _ = envterms.eval_cases("c16", ecases)
+        for e in errs:
+            ck.oblige(False, "correspondence-eval", e)
+        bad = {i: d for i, d in diffs.items() if d[1] & envcheck.MASK["C16"]}
+        ck.oblige(not bad and not errs, "correspondence model=impl on %d session-cache histories with expiry (secret creation/release projections)" % len(ecases),
+                  json.dumps([{"case": envcheck.summarize_case(ecases[i], d[0]), "first_diff_op": d[0]} for i, d in list(bad.items())[:1]])[:4000])
+        ck.oblige(not viols, "session-cache histories with expiry: holders keep working, each secret released exactly once, nothing live after teardown",
+                  json.dumps(viols[:2])[:2000])
+        ck.cov["expiry_histories"] = {"cases": len(ecases), "ops": sum(len(c["ops"]) for c in ecases),
+                                      "with_expired_entry": sum(1 for c in ecases if c.get("cfg") == "sesscache1-exp" and
+                                                                sum(o.get("d", 0) for o in c["ops"] if o["k"] == "advance") > 5 * 10**9),
+                                      "torn_down": sum(1 for c in ecases if c.get("torn_down"))}
+        if viols:
+            v = viols[0]
+            ck.violation(ck.replay_file("expiry", {"what": v["what"], "failing_op": v["op"], "Case": envcheck.shrink_ops(ecases[v["case"]], v["op"]),
+                                                   "observed": ecases[v["case"]]["obs"][v["op"]]}))
+        elif bad:
+            i, d = next(iter(bad.items()))
+            ck.violation(ck.replay_file("corr", {"obligation": "C16 correspondence on session-cache histories (Cases/EnvRun.case_diff)", "first_diff_op": d[0],
+                                                 "Case": envcheck.shrink_ops(ecases[i], d[0]), "observed": ecases[i]["obs"][d[0]]}), False)
     if not ck.violations and ck.discharged != ck.obligations:
         ck.violation(ck.replay_file("oblig", {"obligation": ck.cov.get("failed_obligations")}), False)
     return ck.finish()
